@@ -41,6 +41,15 @@ CHECKS = {
     "C08": ("exploration", "reference-model differential over traced class programs: every constructor, field initialiser, method and destructor echoes a tag; the trace is compared with a model of the documented object-model rules (ASan+UBSan CLI, collections masked)",
             "Every generated class program printed exactly the trace the reference model of the documented rules predicts (construction order, virtual dispatch, super calls, static overload choice, statics, generic specialisations, destructor order and timing).",
             "Reference = vlib/gen_classes.py written from docs/bloch_class_system.md; single-reference objects; bag comparison for same-scope destructor order.", "DESIGN.md 3/C08"),
+    "C09": ("exploration", "metamorphic differential on executions: each generated program runs beside capture-avoiding alpha-renamings of one unit's locals/parameters onto fresh names, other units' locals, instance-field names and static-field names; stdout/status compared (ASan+UBSan CLI)",
+            "No capture-avoiding renaming of a local or parameter explored changed the program's output or termination status.",
+            "Renamings are capture-avoiding by construction (generator owns name resolution); integer-state programs with two classes.", "DESIGN.md 3/C09"),
+    "C10": ("exploration", "metamorphic differential on executions: permutations of the top-level declarations (exhaustive up to 5 declarations, reversal/rotations/shuffles beyond) of generated class and classical programs; verdict, stdout and status compared (ASan+UBSan CLI)",
+            "Every permutation of top-level declarations explored was accepted or rejected exactly like the generation order and printed the same output.",
+            "Reference outcome = dependencies-first order; single-file programs (module merge order is C19).", "DESIGN.md 3/C10"),
+    "C16": ("exploration", "template matrix rule x syntactic position, each cell a (violating, repaired twin) pair embedded in surrounding programs; real lexer+parser+analyser under ASan; expected Semantic vs accepted",
+            "Every rule of the matrix was rejected with a Semantic diagnostic in every position of the matrix and its repaired twin was accepted (exhaustive over the matrix, sampled over surroundings).",
+            "The matrix (111 rules x 34 positions where applicable) is listed in vlib/props/c16.py; category only.", "DESIGN.md 3/C16"),
 }
 
 NOT_YET = {}
